@@ -657,6 +657,10 @@ func (env *SpecEnv) evalCall(st, old *State, x *ast.CallExpr) Val {
 		return Val{l, types.Typ[types.Int]}
 	case "cap":
 		v := arg(0)
+		if _, isChan := unalias(v.Ty).Underlying().(*types.Chan); isChan {
+			// capacity of a channel (recorded at make)
+			return Val{Select(u.heapGet(st, "C.cap", ArraySort(SInt, SInt)), v.T), types.Typ[types.Int]}
+		}
 		return Val{slCap(v.T), types.Typ[types.Int]}
 	case "isnil":
 		v := arg(0)
